@@ -185,9 +185,10 @@ theorem load_front_of_save_table (order : Option (List Nat)) (d : SDoc) (out : B
     ∃ table,
       (∀ n, table.get n = if 1 ≤ n ∧ n < d.maxId + 1 then normalOf (xmapOf [] d) n else none) ∧
       (∀ n off g, table.get n = some (.normal off g) → HeaderAt out off n g) ∧
+      (table.map (·.1)).Nodup ∧
       loadDocOrd order out
         = objectPass order out d.version d.binaryMark table d'.trailer (bodyOf [] d).length := by
-  obtain ⟨xs, table, hxs, hle, hxt, hget, hhdr⟩ := load_xref_of_save_table [] d out d' hk h hlen hmax hg hD
+  obtain ⟨xs, table, hxs, hle, hxt, hget, hhdr, hnodup⟩ := load_xref_of_save_table [] d out d' hk h hlen hmax hg hD
   have hxs' : xs = (bodyOf [] d).length := by
     have := startxref_found [] d out d' h hlen
     rw [hxs] at this; injection this
@@ -196,7 +197,7 @@ theorem load_front_of_save_table (order : Option (List Nat)) (d : SDoc) (out : B
   obtain ⟨_, htr⟩ := saveFrom_table_eq [] d out d' hk h
   have k1 : ¬ SIZE = PREV := by decide
   have k2 : ¬ SIZE = ENCRYPT := by decide
-  refine ⟨table, hget, hhdr, ?_⟩
+  refine ⟨table, hget, hhdr, hnodup, ?_⟩
   apply load_front order out d.version d.binaryMark R hR hv1 hv2 (saveFrom_mark [] d out d' h) _ hxs hle
     table (d.maxId + 1) d'.trailer hxt
   · rw [htr, Dict_get_set]; simp only [k1, if_false]; exact hprev
